@@ -199,10 +199,10 @@ namespace
     auto w = make_world(text);
     const double s = p.sph ? 1.0 : 1e5;
     bool any_in = false, any_out = false;
-    for (int ix = -6; ix <= 6; ++ix) for (int iy = -6; iy <= 6; ++iy)
+    for (int ix = -12; ix <= 12; ++ix) for (int iy = -12; iy <= 12; ++iy)
         for (double depth : {0.0, 2.5e4, 5e4, 6e4, 7.5e4, 9.9e4, 1e5, 1.5e5, 2e5, 2.5e5, 3e5, 4e5, 4.5e5, 5e5, 6e5})
           {
-            const double x = 0.5*ix, y = 0.5*iy;
+            const double x = 0.25*ix, y = 0.25*iy;
             const long double v = plume_form(p, x, y, depth);
             const bool in_depth = depth >= p.min_depth && (!p.has_max || depth <= p.max_depth);
             if (in_depth && fabsl(v - 1) < 1e-9L) { ctx.count(c_skip); continue; }
@@ -263,7 +263,7 @@ int main(int argc, char **argv)
       auto devs = std::make_shared<std::vector<std::vector<unsigned>>>(deviations(PLUME_RADIX, k));
       Suite a; a.name = "plume"; a.n = devs->size();
       a.run = [devs](uint64_t i, Ctx &c) { run_plume(devs, i, c); };
-      a.bound = "plume tables within " + std::to_string(k) + " deviations of the default over radices (centres 3, semi-major 3, eccentricity 4, rotation 6, sections 3, min depth 3, max depth 3, coordinate system 2); 13x13x15 point lattice";
+      a.bound = "plume tables within " + std::to_string(k) + " deviations of the default over radices (centres 3, semi-major 3, eccentricity 4, rotation 6, sections 3, min depth 3, max depth 3, coordinate system 2); 25x25x15 point lattice (quarter steps)";
       s.push_back(a);
     }
     return s;
